@@ -285,13 +285,20 @@ class WSClient:
         with NoTracing():
             exts = [wsproto.extensions.PerMessageDeflate()] if deflate else []
             self.exts = exts
-            self.conn = wsproto.connection.Connection(wsproto.connection.ConnectionType.CLIENT, exts)
+            self._conn = None  # built on first use: wsproto keeps only extensions that are enabled at construction
             self.messages: List[Tuple[str, Any]] = []  # ("text"|"bytes", payload) complete messages
             self.pongs: List[bytes] = []
             self.pings: List[bytes] = []
             self.close: Optional[Tuple[int, Optional[str]]] = None
             self._partial: Optional[list] = None
             self.errors: List[str] = []
+
+    @property
+    def conn(self):
+        if self._conn is None:
+            with NoTracing():
+                self._conn = wsproto.connection.Connection(wsproto.connection.ConnectionType.CLIENT, self.exts)
+        return self._conn
 
     @untraced
     def offer(self) -> bytes:
